@@ -471,6 +471,69 @@ def genItemCase (cfg : GCfg) (fam : String) (seed idx : Nat) : Case := runGen se
               traits.map (fun t => s!"trait={t}")
   pure { id := s!"{fam}/{seed}/{idx}", tags, entry := if useDerive then .derive else .attr first, item }
 
+/-! ## `impl` items -/
+
+def genImplCase (fam : String) (seed idx : Nat) : Case := runGen seed idx do
+  let op ← pick BinOp.all
+  let baseAssign ← chance 1 4
+  let generic ← chance 1 3
+  let x : Ty := if generic then Ty.app "X" [tyT] else Ty.simple "X"
+  let selfTy ← pickW [(5, x), (4, Ty.ref none false x), (1, .ref (some "'a") false x), (1, .ref none true x),
+                      (1, .paren x), (1, .tuple [x, Ty.simple "u8"])]
+  let rhsArg ← pickW [(3, (none : Option Ty)), (2, some Ty.selfTy), (2, some (.ref none false Ty.selfTy)),
+                      (2, some (Ty.simple "u8")), (2, some (.ref none false (Ty.simple "u8"))),
+                      (1, some (Ty.app "Y" [Ty.selfTy])), (1, some (.ref none false (Ty.app "Y" [tyT]))),
+                      (1, some x), (1, some (.ref none false x)), (1, some (.ref (some "'a") false (Ty.simple "u8")))]
+  let traitName := op.str ++ (if baseAssign then "Assign" else "")
+  let lastSeg : Seg := .mk traitName (match rhsArg with | some t => [.ty t] | none => [])
+  let pathStyle ← below 4
+  let segs : List Seg := match pathStyle with
+    | 0 => [lastSeg]
+    | 1 => [.mk "std" [], .mk "ops" [], lastSeg]
+    | 2 => [.mk "core" [], .mk "ops" [], lastSeg]
+    | _ => [.mk "ops" [], lastSeg]
+  let tglobal ← chance 1 4
+  let weird ← below 30
+  let trait_ : Option (Bool × List Seg) :=
+    if weird == 0 then none
+    else if weird == 1 then some (false, [.mk "Foo" []])
+    else if weird == 2 then some (false, [.mk traitName [.ty (Ty.simple "u8"), .ty (Ty.simple "u8")]])
+    else some (tglobal && pathStyle != 0, segs)
+  let neg := weird == 3
+  let output ← pickW [(5, some Ty.selfTy), (2, some x), (1, some (Ty.app "Vec" [Ty.selfTy])), (1, some (Ty.simple "u8")), (1, none)]
+  let fnToks : Toks := ["fn", "f", "(", "self", ")", "{", "}"]
+  let members : List ImplMember :=
+    (if baseAssign then [] else (match output with | some t => [.output t] | none => [])) ++ [.other fnToks]
+  let members ← if ← chance 1 2 then pure members else pure members.reverse
+  let wh ← pickW [(5, ([] : List WPred)), (2, [.ty [] Ty.selfTy [.trait false [] (Ty.simple "Clone")]]),
+                  (1, [.ty [] tyT [.trait false [] (.path false [.mk "Tr" [.ty Ty.selfTy]])]])]
+  let ps : List GParam := (if generic then [.ty "T" [] none] else []) ++
+    (match selfTy with | .ref (some _) _ _ => [.lt "'a" []] | _ => [])
+  let ps := ps.filter (·.isLt) ++ ps.filter (!·.isLt)
+  let wh := if generic then wh else wh.filter fun | .ty _ (.path false [.mk "T" []]) _ => false | _ => true
+  -- requested traits
+  let reqStyle ← below 12
+  let opn := op.str
+  let other := (if op == .add then "Sub" else "Add")
+  let items : List DeriveItem := match reqStyle with
+    | 0 | 1 | 2 => [{ trait_ := opn }]
+    | 3 | 4 => [{ trait_ := opn ++ "Assign" }]
+    | 5 | 6 | 7 => [{ trait_ := opn }, { trait_ := opn ++ "Assign" }]
+    | 8 => [{ trait_ := opn ++ "Assign" }, { trait_ := opn }]
+    | 9 => [{ trait_ := other }]
+    | 10 => []
+    | _ => [{ trait_ := "Clone" }]
+  let quirk ← below 25
+  let items := if quirk == 0 then items.map fun it => { it with args := some (none, false) } else items
+  let bound : Option (List BoundArg) := if quirk == 1 then some [.ty tyT] else none
+  let dump ← chance 1 5
+  let fo ← genForeign { traits := [], foreignPct := 30 }
+  let item : ItemImpl := { attrs := fo, generics := { params := ps, wheres := wh }, neg, trait_, selfTy, members }
+  let args : Args := { items, bound, dump }
+  pure { id := s!"{fam}/{seed}/{idx}",
+         tags := [s!"base={if baseAssign then "assign" else "binary"}", s!"req={reqStyle}", s!"dump={dump}"],
+         entry := .attr args, item := .impl_ item }
+
 def opTraits : List String :=
   BinOp.all.map (·.str) ++ BinOp.all.map (fun o => o.str ++ "Assign") ++ ["Neg", "Not"]
 def basicTraits : List String := ["Clone", "Copy", "Debug", "Default"]
@@ -483,6 +546,8 @@ def cfgOps : GCfg := { traits := opTraits ++ ["Deref", "DerefMut", "Clone"], all
 def cfgBounds : GCfg := { traits := cmpTraits ++ basicTraits, cmpAttrPct := 40, debugAttrPct := 30, defaultAttrPct := 30, boundPct := 70, genericPct := 100, foreignPct := 5 }
 def cfgAll : GCfg := { traits := allTraits, cmpAttrPct := 35, debugAttrPct := 25, defaultAttrPct := 25, boundPct := 25, foreignPct := 35, validBias := true, dumpPct := 0 }
 def cfgDump : GCfg := { cfgAll with dumpPct := 35 }
+def cfgStrip : GCfg := { traits := allTraits, cmpAttrPct := 45, debugAttrPct := 40, defaultAttrPct := 40, boundPct := 20,
+                         foreignPct := 75, validBias := false }
 def cfgWild : GCfg := { cfgAll with validBias := false, trickyPct := 15, traits := allTraits ++ ["Foo", "Assign", "Index", "clone"] }
 
 end DX
